@@ -557,16 +557,32 @@ func main() {
 		depthA = 6
 		bound = 3
 	}
+	if os.Getenv("VERIF_C18_COUNT") != "" {
+		fsCount()
+		return
+	}
+	if os.Getenv("VERIF_C18_PROFILE") != "" {
+		fsProfile()
+		return
+	}
+	if i, n, ok := core.IsWorker(); ok {
+		fsWorker(i, n) // part C runs in worker processes
+	}
 	if core.Opt.Replay != "" {
 		var rp struct {
 			Part     string   `json:"part"`
 			History  []string `json:"history"`
 			Scenario int      `json:"scenario"`
 			Choices  []int    `json:"choices"`
+			Case     fsCase   `json:"case"`
 		}
 		if err := core.LoadReplay(core.Opt.Replay, &rp); err != nil {
 			fmt.Println(err)
 			os.Exit(2)
+		}
+		if rp.Part == "C" {
+			replayFsCase(rp.Case)
+			return
 		}
 		if rp.Part == "A" {
 			o := runA(rp.History)
@@ -585,8 +601,28 @@ func main() {
 	r := core.NewResult(prop, "model_checking")
 	r.Rule = "Part A: BFS over operation sequences (AddTx/AddTxs/GetTxs/DelTxs over t1,t2,t3,u1,u2,box(u1,u2),box(u1,t3); capacity 2; expirations 10/20; selection times 5/15/25, sizes 1/2/9) on the real TxPool against a set model; state = pool dump + model. Part B: 8 thread scenarios under the controlled scheduler, all interleavings up to the preemption bound, points at the pool mutex and at every read/write of txs/hashIndexMap/cap; linearizability by brute force; distinct outcome = (scenario, results, final pool)"
 	r.Assume = []string{"order of GetTxs results is not asserted", "AddTx refusing a transaction is never a violation (the statement does not demand acceptance), except AddTxs accepting fewer than the non-conflicting ones, which the count cannot attribute"}
-	core.BFS(r, core.BFSConfig{Prop: prop, Run: core.SafeRun(prop, runA), MaxDepth: depthA, Workers: core.Opt.Workers})
-	runB(r, bound)
+	// part C (worker processes) runs next to parts A and B (this process)
+	parts := os.Getenv("VERIF_C18_PARTS") // development aid: run a subset of the parts (default: all)
+	if parts == "" {
+		parts = "ABC"
+	} else {
+		r.NotExhaustive("only parts " + parts + " were run (VERIF_C18_PARTS)")
+	}
+	partC := make(chan *core.Result, 1)
+	go func() {
+		if strings.Contains(parts, "C") {
+			partC <- runForkSwitch()
+		} else {
+			partC <- core.NewResult(prop, "model_checking")
+		}
+	}()
+	if strings.Contains(parts, "A") {
+		core.BFS(r, core.BFSConfig{Prop: prop, Run: core.SafeRun(prop, runA), MaxDepth: depthA, Workers: core.Opt.Workers})
+	}
+	if strings.Contains(parts, "B") {
+		runB(r, bound)
+	}
+	r.Merge(<-partC)
 	_ = common.Hash{}
 	core.Finish(r)
 }
